@@ -12,11 +12,26 @@ EXTENDS PatternPrint, Json, IOUtils, TLCExt
 TraceLog == ndJsonDeserialize(IOEnv.TRACE_FILE)
 VARIABLE l
 Rej(e, c) == PrintT(<<"REJECT", l, e.kind, c>>)
+
+(* Constants of pairs outside the integer vocabulary are renamed jointly into it by the harness (same number exactly for constants that denote the same value).  Where the
+   denotation is defined by text the library documents -- an address block denotes its network, a registry name is case-insensitive -- the renaming is re-computed here
+   from the raw constant (consts: a sequence of [id, kind, bits, plen, units]), so that it does not rest on the harness alone:
+     kind "cidr": bits = the address as a sequence of 0/1 (32 or 128 long), plen = prefix length; the network is the first plen bits
+     kind "istr": units = code units of the text; ASCII letters compare without case
+     kind "other": units = an opaque key computed by the harness (exact numbers, decoded bytes, instants): equal keys, equal value *)
+Lower(u) == IF u >= 65 /\ u <= 90 THEN u + 32 ELSE u
+SameDenotation(a, b) ==
+  IF a.kind # b.kind THEN FALSE
+  ELSE IF a.kind = "cidr" THEN Len(a.bits) = Len(b.bits) /\ a.plen = b.plen /\ \A i \in 1..a.plen : a.bits[i] = b.bits[i]
+  ELSE IF a.kind = "istr" THEN Len(a.units) = Len(b.units) /\ \A i \in DOMAIN a.units : Lower(a.units[i]) = Lower(b.units[i])
+  ELSE a.units = b.units
+RenamingFaithful(e) == ~("consts" \in DOMAIN e) \/ \A i, j \in DOMAIN e.consts : (e.consts[i].id = e.consts[j].id) = SameDenotation(e.consts[i], e.consts[j])
 TraceInit == l = 1
 TraceNext ==
   /\ l <= Len(TraceLog)
   /\ LET e == TraceLog[l] IN
      IF e.kind = "pair" THEN
+        /\ IF ~RenamingFaithful(e) THEN Rej(e, "HARNESS:renaming_not_faithful") ELSE TRUE          \* a harness error, not a verdict on the library
         /\ IF e.invocab /\ e.verdict /\ ~Same(e.p, e.q) THEN Rej(e, "C09:reported_equivalent_but_match_different_observations") ELSE TRUE
         /\ IF e.invocab /\ e.expect = "equiv" /\ ~e.verdict /\ Same(e.p, e.q) THEN Rej(e, "C09:documented_rewrite_not_recognised") ELSE TRUE
      ELSE IF e.kind = "norm" THEN
